@@ -8,18 +8,20 @@ and deliveries unchanged."
 
 `Api.handle` models every handler as validation → parameter mapping → **constructor preconditions
 as an explicit `panic` outcome** → transaction → status.  The production interceptor chain has no
-recovery interceptor (`C16_no_recovery_interceptor`, regenerated from `grpc/server.go`), so a panic
+recovery interceptor (`recoveryInterceptorPresent`, regenerated from `grpc/server.go`, evaluates to `false`), so a panic
 outcome would terminate the process: the theorem is that no request reaches one.
 -/
 import Mmmbbb.Model.Api
 namespace Mmmbbb.Api
 
-/-- the production interceptor chains, as found in the source: logging, metrics, fault injection —
-    nothing that recovers from a panic -/
-theorem C16_no_recovery_interceptor :
-    Extracted.unaryInterceptors = ["s.logUnary", "grpc_prometheus.UnaryServerInterceptor", "UnaryFaultInjector()"] ∧
-    Extracted.streamInterceptors = ["s.logStream", "grpc_prometheus.StreamServerInterceptor", "StreamFaultInjector()"] := by
-  decide
+/-- Does one of the production interceptor chains, as found in the source (`grpc/server.go`, regenerated),
+    recover from a panic?  Informational, not an obligation: today they are logging, metrics and fault
+    injection, so a panic would end the process — but the theorems below show that no request reaches a
+    panic outcome in the first place, which is what the property asks and which stays true whether or
+    not an interceptor would catch one (a maintainer adding a recovery interceptor, or renaming the
+    server's receiver, does not touch the property). -/
+def recoveryInterceptorPresent : Bool :=
+  (Extracted.unaryInterceptors ++ Extracted.streamInterceptors).any fun n => (n.splitOn "ecover").length > 1
 
 theorem validName_nonempty (k n : String) (h : validName k n = true) : emptyName n = false := by
   unfold validName at h
